@@ -267,3 +267,6 @@ def run(ctx: Ctx, rep: Report, tier: str):
     rep.rule("C10.T10", "a transient fault in the first intake step after a restart is retried in full: _do_first_init clears its flag only after the cursor "
              "restore succeeded (C06.R9)", 1)
     first_init_completes_before_flag(ctx, rep, "C10.T10")
+    from rules.common import walk_propagates_faults
+    rep.rule("C10.T12", "a transient fault during a walk is not swallowed: Provider._walk / walk / walk_oid catch nothing but CloudFileNotFoundError without re-raising", 1)
+    walk_propagates_faults(ctx, rep, "C10.T12")
